@@ -12,7 +12,7 @@ CLAIM = {
             'whose only disabling condition is the coroutine model, except one listed, reasoned exemption.',
     'note': 'Trusted: clang CFG and implicit-destructor placement (guard live ranges), extractor, the frozen caller/exemption tables. '
             'Undecided: interleavings, fairness of the spin lock, atomicity of counter updates from the reader thread.',
-    'technique': 'who-may-call + RAII guard live-range (lock held) analysis over the clang CFG with implicit destructors',
+    'technique': 'who-may-call + RAII guard live-range (lock held) analysis over the clang CFG with implicit destructors; must-pass-through / forward dataflow on the writer queue\'s sub-queue push',
 }
 UNITS = ['runtime/connection.cpp', 'runtime/session.cpp']
 EXPLANATION = (
